@@ -197,11 +197,13 @@ async fn run(case: &Case) -> Outcome {
     let mut client = ReplicationClient::<ModelStore>::new(Clock::new(2), Channel::connect(addr));
     let mut fetches = 0;
     let mut faulty = 0;
+    let mut seen: Vec<Stamp> = vec![];
     for (stage, b) in case.build.iter().enumerate() {
         match b {
             Build::Ops(ops) => {
                 let m = group.get_or_create_keyspace(ks).await;
                 for (op, source) in ops {
+                    seen.push(op.stamp);
                     origins.insert(op.stamp.node);
                     sources.insert(*source);
                     if op.delete {
@@ -246,6 +248,7 @@ async fn run(case: &Case) -> Outcome {
                     g.log[log_before..].iter().filter(|(k, _, _, _)| k == ks).map(|(_, id, ts, bytes)| SetOp { key: *id, stamp: Stamp::of(*ts), delete: bytes.is_none() }).collect()
                 };
                 written.sort_by_key(|o| o.stamp);
+                seen.extend(written.iter().map(|o| o.stamp));
                 for op in &written {
                     if reference.will_apply(op.key, op.stamp.hlc()) {
                         apply(&mut reference, *source, op);
@@ -287,7 +290,7 @@ async fn run(case: &Case) -> Outcome {
             fetches += 1;
             let _ = group.get_or_create_keyspace(ks).await;
             match client.get_state(ks).await {
-                Ok((_, received)) => compare_sets(&reference, &received).map_err(|mut f| {
+                Ok((_, received)) => compare_sets_seen(&reference, &received, &seen).map_err(|mut f| {
                     f.message = format!("fetch after stage {stage}: {}", f.message);
                     f
                 })?,
@@ -321,7 +324,7 @@ async fn run(case: &Case) -> Outcome {
         Stamp::of(last_updated),
         Stamp::of(sender_last_updated)
     );
-    compare_sets(&sender, &received)?;
+    compare_sets_seen(&sender, &received, &seen)?;
 
     // A peer that is up but does not serve its state (its store is not attached yet, or was detached): whatever the
     // requester is handed must still be the peer's state — an error is fine, somebody's idea of "nothing" is not
@@ -367,6 +370,13 @@ async fn run(case: &Case) -> Outcome {
 }
 
 pub fn compare_sets(sender: &OrSWotSet<2>, received: &OrSWotSet<2>) -> Result<(), Fail> {
+    compare_sets_seen(sender, received, &[])
+}
+
+/// `seen`: stamps of operations the sender has been handed, whether or not their origin still owns an entry or a tombstone
+/// (after the seeded change `C19r`: what a state remembers about an origin that owns nothing any more -- its cut-off -- is
+/// part of the "accept / refuse decisions for any further operation")
+pub fn compare_sets_seen(sender: &OrSWotSet<2>, received: &OrSWotSet<2>, seen: &[Stamp]) -> Result<(), Fail> {
     let sv = view(sender);
     let rv = view(received);
     ensure!(sv.live == rv.live, "live-differs", "received live ids differ: sender {} entries, received {} entries; first differences: {:?}", sv.live.len(), rv.live.len(), first_diff(&sv.live, &rv.live));
@@ -377,7 +387,7 @@ pub fn compare_sets(sender: &OrSWotSet<2>, received: &OrSWotSet<2>) -> Result<()
     keys.push(987_654_321);
     let held: Vec<Stamp> = sv.live.values().chain(sv.dead.values()).copied().collect();
     let mut per_origin: BTreeMap<u8, (Stamp, Stamp)> = BTreeMap::new();
-    for s in &held {
+    for s in held.iter().chain(seen.iter()) {
         let e = per_origin.entry(s.node).or_insert((*s, *s));
         if *s < e.0 {
             e.0 = *s;
